@@ -116,6 +116,14 @@ func newPool() *purityPool {
 		panic(err)
 	}
 	p.models["m_other"] = other
+	// two models of different content that carry the same id (the same id in two stores, a fixture id): what is built or
+	// printed for one of them must not be handed out for the other
+	ida := proto.Clone(big).(*openfgav1.AuthorizationModel)
+	ida.Id = "01J0PURITY0000000000000001"
+	idb := proto.Clone(other).(*openfgav1.AuthorizationModel)
+	idb.Id = "01J0PURITY0000000000000001"
+	p.models["m_id_a"] = ida
+	p.models["m_id_b"] = idb
 	p.files["f_ok"] = mods
 	p.files["f_conflict"] = poolConflict()
 	return p
@@ -124,10 +132,15 @@ func newPool() *purityPool {
 var purityOps = map[string]string{ // operation -> kind of object it takes
 	"dsl2proto": "dsl", "dsl2json": "dsl", "modular": "dsl", "json2dsl": "json", "proto2dsl": "model", "proto2dsl_src": "model",
 	"wg": "model", "wg_shared": "model", "pg": "model", "merge": "files", "modfile": "yaml", "validators": "str",
+	// the caller re-uses ONE message value for model after model (proto.Reset ; proto.Merge): identity of the message is not identity of
+	// the model. Sequential histories only (the recycled message is the harness' own shared object).
+	"wg_recycled": "model2", "pg_recycled": "model2", "proto2dsl_recycled": "model2",
 	// every validator on its own: what one of them caches must not change what another answers
 	"v_user": "str", "v_object": "str", "v_userset": "str", "v_type": "str", "v_relation": "str", "v_condition": "str", "v_objectid": "str",
 	"v_userobject": "str", "v_wildcard": "str",
 }
+
+var recycledModel = &openfgav1.AuthorizationModel{}
 
 var singleValidators = map[string]func(string) bool{
 	"v_user": validation.ValidateUser, "v_object": validation.ValidateObject, "v_userset": validation.ValidateUserSet, "v_type": validation.ValidateType,
@@ -172,7 +185,7 @@ func purityPairs(args []string) error {
 	pairs := [][]string{}
 	for _, op := range ops {
 		for _, o := range objs {
-			if purityOps[op] == objKind(o) {
+			if purityOps[op] == objKind(o) || (purityOps[op] == "model2" && (o == "m_big" || o == "m_other")) {
 				pairs = append(pairs, []string{op, o})
 			}
 		}
@@ -271,6 +284,10 @@ func execOp(op string, text string, model *openfgav1.AuthorizationModel, files [
 		o := outcomeOf(g, err, cn, nil)
 		accepted := o.Result == "ok"
 		return digest(accepted, o.NW, o.EW, o.NWC, o.EWC)
+	case "wg_recycled", "pg_recycled", "proto2dsl_recycled":
+		proto.Reset(recycledModel)
+		proto.Merge(recycledModel, model)
+		return execOp(strings.TrimSuffix(op, "_recycled"), text, recycledModel, files)
 	case "wg_shared":
 		// one builder value for the whole process: a builder is not supposed to remember anything between Build calls
 		g, err := sharedBuilder.Build(model)
